@@ -102,6 +102,27 @@ Theorem C20_cancel_is_noop :
 Proof. exact cancel_step. Qed.
 Print Assumptions C20_cancel_is_noop.
 
+(** The path BEFORE the request machine.  Pull = registry-host override step, then the machine on the
+    rewritten image: [Req c img] is a Pull whose override step succeeded with [img], [Fail c] one whose
+    override step failed.  A failing override answers the caller at once with the error, changes
+    nothing in the manager and starts no pull; every such call gets exactly one such answer.  (That a
+    Go Pull returns exactly one of (package, nil) / (nil, err) on either path is what the harness
+    classifies for every call; "neither" or "both" is a concrete violation.) *)
+Theorem C20_override_failure_is_answered_and_pulls_nothing :
+  forall steps c,
+    log (run (steps ++ [Fail c])) = log (run steps) ++ [Rejected c] /\
+    next (run (steps ++ [Fail c])) = next (run steps) /\
+    pullnos (log (run (steps ++ [Fail c]))) = pullnos (log (run steps)) /\
+    forall img, inflight (run (steps ++ [Fail c])) img = inflight (run steps) img /\
+                count_started img (log (run (steps ++ [Fail c]))) = count_started img (log (run steps)).
+Proof. exact fail_step. Qed.
+Print Assumptions C20_override_failure_is_answered_and_pulls_nothing.
+
+Theorem C20_override_failure_accounting :
+  forall steps c, count_rejected c (log (run steps)) = count_fail c steps.
+Proof. exact fail_accounting. Qed.
+Print Assumptions C20_override_failure_accounting.
+
 (** (c) All package copies ever handed out have pairwise distinct identities (one DeepCopy per
     receiver).  Whether DeepCopy really yields disjoint memory is tested by the aliasing probe. *)
 Theorem C20_private_copies :
